@@ -19,7 +19,7 @@ AMB = {"WithGroup", "WithAttrs", "Handle"}
 
 def is_tr(rel, recv, name):
     if name not in translated: return False
-    if name in AMB: return rel in ("logger/json_handler.go", "logger/text_handler.go")
+    if name in AMB: return rel in ("logger/json_handler.go", "logger/text_handler.go", "logger/nano_handler.go")
     if name == "Get": return "Params" in recv
     if name in ("Add", "Remove", "Contains"): return "IPv4Filter" in recv
     return True
